@@ -345,6 +345,9 @@ class Impl:
         if op == 'ravel':
             import ravel_impl
             return ravel_impl.run(s)
+        if op == 'dcpart':
+            import dc_impl
+            return dc_impl.partition(s)[0]
         if op == 'sorttwin':
             import twins_impl
             return twins_impl.sort_twin(u, [u.key(k) for k in s[1:]])
